@@ -194,3 +194,66 @@ def fasta_records(path):
         elif name is not None:
             recs[name] += line
     return recs
+
+
+# ------------------------------------------------------------------------------------------------- end to end: FASTA in, FASTA + AGP out
+def cli_fasta_case(sc):
+    """Run pretext-to-asm on a FASTA input writing FASTA output (with a small stream buffer, so that join gaps and fragments are chunked)
+    and return (a) a FastaTrace 'file' trace: every output record as the stream of the rows its companion AGP lists, over the input FASTA,
+    (b) AgpTpfTrace 'agp' traces: each companion AGP with the lengths of the FASTA records written beside it."""
+    from harness import agp_engine as A
+    import tola.fasta.index as index
+    root, cfg, buf, tid = sc["root"], sc["cfg"], sc["buf"], sc["tid"]
+    d = Path(tempfile.mkdtemp(prefix="e2e-", dir=root))
+    ind = d / "inp"
+    ind.mkdir()
+    asm_p, ptx_p = write_inputs(ind, cfg, "fa")
+    out = d / "out"
+    out.mkdir()
+    old = index.FastaIndex.__init__.__defaults__
+    index.FastaIndex.__init__.__defaults__ = (buf,)
+    try:
+        rc, text, exc = run_inproc(["-a", asm_p, "-p", ptx_p, "-o", out / "x.1.fa", "--no-write-log"])
+    finally:
+        index.FastaIndex.__init__.__defaults__ = old
+    inp = fasta_records(asm_p)
+    recs = [{"name": n, "hlen": 1 + len(n), "res": list(s), "w": 60, "eol": 1} for n, s in inp.items()]
+    ft = {"tid": tid, "kind": "file", "cls": f"cli/{cfg}/buf={buf}", "recs": recs, "fnl": 1, "maxline": 60, "idxruns": [], "reads": [], "asms": [], "derived": 0,
+          "streams": [], "revpairs": [], "agp": [], "fai": [], "exit": rc}
+    agps = []
+    for fa in sorted(out.glob("*.fa")):
+        agp = fa.with_suffix(".agp")
+        written = fasta_records(fa)
+        if not agp.exists():
+            agps.append(A.agp_trace(0, "pretext-to-asm-cli/missing-companion", [], [{"obj": n, "len": len(s)} for n, s in written.items()]))
+            continue
+        m = A.matrix(agp.read_text())
+        agps.append(A.agp_trace(0, f"pretext-to-asm-cli/{cfg}/buf={buf}", m, [{"obj": n, "len": len(s)} for n, s in written.items()]))
+        # rows per object, in file order
+        objs = {}
+        for f in m:
+            if f[0].startswith("#"):
+                continue
+            if f[4] in ("U", "N"):
+                row = {"k": "G", "name": f[6], "s": 1, "e": int(f[5]), "st": 0}
+            else:
+                row = {"k": "F", "name": f[5], "s": int(f[6]), "e": int(f[7]), "st": {"+": 1, "-": -1}.get(f[8], 0)}
+            objs.setdefault(f[0], []).append(row)
+        order_ok = list(objs) == list(written)
+        text_lines = fa.read_text().split("\n")
+        for name, rows in objs.items():
+            ft["asms"].append(rows)
+            seq = written.get(name, "")
+            # the record's own lines as written
+            lines = []
+            grab = False
+            for ln in text_lines:
+                if ln.startswith(">"):
+                    grab = ln[1:].split()[0] == name if ln[1:].split() else False
+                    continue
+                if grab and ln != "":
+                    lines.append(list(ln))
+            ft["streams"].append({"a": len(ft["asms"]), "B": buf, "L": 60, "exc": "" if rc == 0 else "exit" + str(rc), "hdr": 1 if (name in written and order_ok) else 0,
+                                  "lines": lines, "maxchunk": 0, "maxread": 0, "e2e": 1})
+    shutil.rmtree(d, ignore_errors=True)
+    return {"file": ft, "agps": agps}
